@@ -683,7 +683,15 @@ def load_configuration(defaults, verbose=False):
     for filename in config_filenames():
         if verbose:
             print('Loading config defaults from "%s"' % filename)
-        defaults.update(read_configuration(filename, verbose))
+        this_config = read_configuration(filename, verbose)
+        for section_name in ("userdata", "more_formatters", "more_runners"):
+            # -- MERGE SECTIONS: A config-file without such a section
+            #    should not discard the data of the preceding config-file(s).
+            if section_name in this_config:
+                merged = dict(defaults.get(section_name) or {})
+                merged.update(this_config[section_name])
+                this_config[section_name] = merged
+        defaults.update(this_config)
 
     if verbose:
         print("Using CONFIGURATION DEFAULTS:")
